@@ -195,7 +195,7 @@ def modelOpt (line : String) : Option String := do
 
 def isCase (line : String) : Bool :=
   match Sexp.parse line with
-  | some (.list (.atom h :: _)) => ["direct", "core", "bridge", "jbridge", "law", "comm", "hosts", "ext", "complete"].contains h
+  | some (.list (.atom h :: _)) => ["direct", "core", "bridge", "jbridge", "law", "comm", "hosts", "ext", "complete", "joinprobe"].contains h
   | _ => false
 
 def model (line : String) : String :=
